@@ -41,7 +41,15 @@ ASSUMPTIONS = ['ak.concatenate(axis>0) and the Python wrappers are not executabl
                'parameters other than __array__ (string/bytestring/char/byte) are not generated; __record__ names are not generated',
                'the type-level claim is not checked when an operand contains a union, an n-d NumpyArray or a __record__ name; '
                'list sizes (regular vs var) are not part of the type claim: this tree merges RegularArrays into ListArray64',
-               'complex, datetime64/timedelta64, float16/float128 leaves are outside the model (11 dtypes)']
+               'complex, datetime64/timedelta64, float16/float128 leaves are outside the model (11 dtypes)',
+               'operands are valid layouts (validityerror == ""), except for the one nesting that simplify_optiontype / '
+               'simplify_uniontype exist to remove; merging INVALID layouts is outside C08 (RecordArray::mergemany reads out of '
+               'bounds when a field is shorter than the record: reported for C12)',
+               'the Rocq theorems cover the same-skeleton fragment (1-d NumpyArray, ListOffset/ListArray/Regular(size<>1), the five '
+               'option encodings + IndexedArray, plain operands after an option operand), merge_as_union, simplify_optiontype, '
+               'simplify_uniontype(merge=False) and numbers_to_type on 1-d NumpyArray; records, unions as operands, EmptyArray '
+               'operands, strings, n-d NumpyArray, reverse_merge (option operand after a plain one) and simplify_uniontype(merge=True) '
+               'are tied to the implementation by the differential tests only']
 TRUSTED_BASE = [
     'Rocq kernel: coqc 8.16.1; theorems in c08/coq/Props_C08.v closed under the global context (parsed on this run)',
     'extraction: ExtrOcamlBasic only, Z/positive/nat inductive; OCaml 4.13.1; reader/printer c08/ocaml/{sx,rd,mergerun}.ml',
@@ -389,13 +397,10 @@ def cases(rng, tier):
         for fn in sorted(os.listdir(CORPUS)):
             if not fn.endswith('.case'):
                 continue
-            for ln in open(os.path.join(CORPUS, fn)):
-                ln = ln.strip()
-                if not ln or ln.startswith('#'):
-                    continue
-                m = re.match(r'^\((\S+) (\S+) (.*)\)$', ln)
-                if m:
-                    out.append(C.Case('k_' + m.group(1), m.group(2), [m.group(3)], [], dict(nontrivial=True, tags=dict(kind='corpus', op=m.group(2)))))
+            for c in replay_cases(os.path.join(CORPUS, fn)):
+                c.id = 'k_' + c.id
+                c.meta['tags']['kind'] = 'corpus'
+                out.append(c)
 
     # ---- all 121 ordered dtype pairs through concat (1-d and one list level), mergebool on
     reps = 1 if quick else 6
@@ -638,6 +643,85 @@ def evaluate(cases, san=False):
         if v is None:
             v = 'bad (driver: %s)' % r[:200]
         out.append((c, r, v, errs.get(c.id, '')))
+    return out
+
+
+def parse_sx(text):
+    """S-expression -> nested lists of atoms (strings)"""
+    toks = re.findall(r'\(|\)|[^\s()]+', text)
+    pos = [0]
+
+    def go():
+        t = toks[pos[0]]
+        pos[0] += 1
+        if t == '(':
+            out = []
+            while toks[pos[0]] != ')':
+                out.append(go())
+            pos[0] += 1
+            return out
+        return t
+    return go()
+
+
+def layout_type(t, par=None):
+    """coarse type of a parsed layout (same shape as the generator's types)"""
+    h = t[0]
+    if h == 'par':
+        if t[1] in ('string', 'bytestring'):
+            return ('str', t[1] == 'string')
+        return layout_type(t[3])
+    if h == 'np':
+        ty = ('leaf', t[1])
+        for _ in t[2][1:]:
+            ty = ('list', ty)
+        return ty
+    if h == 'empty':
+        return ('unk',)
+    if h == 'lo':
+        return ('list', layout_type(t[3]))
+    if h == 'la':
+        return ('list', layout_type(t[4]))
+    if h == 'reg':
+        return ('list', layout_type(t[3]))
+    if h == 'ix':
+        return layout_type(t[3])
+    if h == 'ixo':
+        return ('opt', layout_type(t[3]))
+    if h == 'bym':
+        return ('opt', layout_type(t[3]))
+    if h == 'bim':
+        return ('opt', layout_type(t[5]))
+    if h == 'unm':
+        return ('opt', layout_type(t[1]))
+    if h == 'un':
+        return ('union', [layout_type(x) for x in t[4:]])
+    if h == 'rec':
+        if t[2] == 'tuple':
+            return ('rec', [(str(i), layout_type(x)) for i, x in enumerate(t[3:])], True)
+        return ('rec', [(k, layout_type(x)) for k, x in zip(t[2], t[3:])], False)
+    raise ValueError(h)
+
+
+def replay_cases(path):
+    """cases of a replay / corpus file, with the operand types recomputed from the layouts (for signature())"""
+    out = []
+    for ln in open(path):
+        ln = ln.strip()
+        if not ln or ln.startswith('#'):
+            continue
+        m = re.match(r'^\((\S+) (\S+) (.*)\)$', ln)
+        if not m:
+            continue
+        meta = dict(nontrivial=True, tags=dict(kind='replay', op=m.group(2)))
+        try:
+            items = parse_sx('(' + m.group(3) + ')')
+            if m.group(2) == 'concat':
+                meta['mb'] = int(items[1])
+                meta['types'] = [layout_type(x) for x in items[2:]]
+        except Exception:   # noqa: BLE001
+            pass
+        out.append(C.Case(m.group(1), m.group(2), [m.group(3)], [], meta))
     return out
 
 
